@@ -304,7 +304,7 @@ func newC11Sys(r *Run, c *Case, hooks []c11Hook, crontabs []string) (*c11Sys, st
 	_ = os.MkdirAll(tmpDir, 0o755)
 	for _, h := range hooks {
 		script := "#!/bin/bash\nif [[ \"$1\" == \"--config\" ]]; then\ncat <<'EOF'\n" + h.yaml() + "EOF\nfi\n"
-		if err := os.WriteFile(filepath.Join(hooksDir, h.file), []byte(script), 0o755); err != nil {
+		if err := writeScript(filepath.Join(hooksDir, h.file), []byte(script), 0o755); err != nil {
 			return nil, "scratch: " + err.Error()
 		}
 	}
